@@ -58,6 +58,30 @@ elab "pair_subst" : tactic => do
       if progressed then loop n
   loop 64
 
+open Lean Elab Tactic Meta in
+/-- case split on the condition of the first (outermost, leftmost) `if … then … else` of the goal and rewrite
+    that `if` with `if_pos` / `if_neg` (cheap on very large goals, where `split`'s internal `simp` gives up) -/
+elab "ite_split" : tactic => withMainContext do
+  let g ← getMainGoal
+  let tgt ← instantiateMVars (← g.getType)
+  let some e := tgt.find? (fun e => e.isAppOfArity ``ite 5 && !(e.getArg! 1).hasLooseBVars)
+    | throwError "ite_split: no if-then-else in the goal"
+  let c := e.getArg! 1
+  let inst := e.getArg! 2
+  let (pos, neg) ← g.byCases c `hc
+  let rw (s : ByCasesSubgoal) (lem : Name) : TacticM MVarId := s.mvarId.withContext do
+    let prf ← mkAppOptM lem #[c, inst, mkFVar s.fvarId, e.getArg! 0, e.getArg! 3, e.getArg! 4]
+    let tgt ← instantiateMVars (← s.mvarId.getType)
+    let r ← s.mvarId.rewrite tgt prf
+    let g' ← s.mvarId.replaceTargetEq r.eNew r.eqProof
+    return g'
+  let g1 ← rw pos ``if_pos
+  let g2 ← rw neg ``if_neg
+  replaceMainGoal [g1, g2]
+
+/-- `split`, falling back to `ite_split` -/
+macro "csplit" : tactic => `(tactic| first | split | ite_split)
+
 /-- server choice of `ares_send_query` -/
 def pickServer (reqSrv : Option Nat) (s : St) : Option Server × St :=
   match reqSrv with
@@ -123,9 +147,8 @@ def openConn (s : St) (tcp : Bool) (srv : Server) : (Except Status Nat) × St :=
         let s := s.notify fd true tcp
         (.ok fd, s)
 
-/-- the part of `ares_send_query` after a connection has been found: `ares_conn_query_write`, timeout, linking -/
-def sqWrite (go : Call → St → St × Ret) (reqSrv : Option Nat) (key : Nat) (q : Query) (srv : Server) (fd : Nat) (s : St) : St × Ret :=
-  let probeDowned := reqSrv.isNone && srv.failures == 0 && q.tryCount == 0
+/-- `ares_conn_query_write` up to the append to out_buf: `ares_cookie_apply`, frame, write log (pure) -/
+def sqPrep (key : Nat) (q : Query) (srv : Server) (fd : Nat) (s : St) : St × Query :=
   let cTcp := ((s.conn? fd).map (·.tcp)).getD q.usingTcp
   let cSelf := ((s.conn? fd).map (·.selfIp)).getD 0
   let srvNow0 := (s.server? srv.id).getD srv
@@ -143,45 +166,56 @@ def sqWrite (go : Call → St → St × Ret) (reqSrv : Option Nat) (key : Nat) (
                             qtype := q.qtype, qclass := q.qclass, rd := q.rd, edns := q.edns, cookie := cookie }
   let s := s.modConn fd fun c => { c with out := c.out ++ [frame] }
   let s := { s with writeLog := s.writeLog ++ [key] }
+  (s, q)
+
+/-- the flush decision of `ares_conn_query_write` -/
+def sqFlush (go : Call → St → St × Ret) (fd : Nat) (s : St) : Status × St :=
   let c := (s.conn? fd).getD default
-  let (wst, s) : Status × St :=
-    if c.tcp && !c.connected then (.ok, s)
-    else if s.cfg.pendingWrite && !s.notifyPending && c.tcp then
-      (.ok, ({ s with notifyPending := true }).emit "pendingwrite")
-    else
-      let (s, r) := go (.flush fd) s
-      (r, s)
+  if c.tcp && !c.connected then (.ok, s)
+  else if s.cfg.pendingWrite && !s.notifyPending && c.tcp then
+    (.ok, ({ s with notifyPending := true }).emit "pendingwrite")
+  else
+    let (s, r) := go (.flush fd) s
+    (r, s)
+
+/-- `ares_send_query` after a successful write: timeout, by-timeout index, connection list, probe -/
+def sqLink (go : Call → St → St × Ret) (probeDowned : Bool) (key : Nat) (srv : Server) (fd : Nat) (s : St) : St × Ret :=
+  match s.query? key, s.conn? fd with
+  | some q, some _ =>
+    let srvNow := (s.server? srv.id).getD srv
+    let timeout := s.serverTimeout srvNow
+    let nsrv := s.servers.length
+    let rounds := q.tryCount / nsrv
+    let timeplus := if rounds > 0 then timeout * 2 ^ rounds else timeout
+    let timeplus := if s.cfg.maxtimeout != 0 && timeplus > s.cfg.maxtimeout then s.cfg.maxtimeout else timeplus
+    let (dl, s) : Deadline × St :=
+      if rounds > 0 then
+        let (_, s) := s.draw2
+        let lo := max timeout (timeplus - timeplus / 2)
+        let hi := max timeout timeplus
+        (.pending (s.now + lo) (s.now + hi), s)
+      else (.at (s.now + max timeplus timeout), s)
+    let s := { s with byTimeout := s.byTimeout.erase key }
+    let s := match q.conn with
+      | some old => s.modConn old fun c => { c with queries := c.queries.erase key }
+      | none => s
+    let s := s.modQuery key fun q => { q with ts := s.now, deadline := dl, conn := some fd, inConnList := true }
+    let s := { s with pendingOrder := s.pendingOrder.erase key ++ [key] }
+    let s := s.modConn fd fun c => { c with queries := c.queries.erase key ++ [key], total := c.total + 1 }
+    if probeDowned then
+      let (s, _) := go (.probe srv.id key) s
+      (s, .ok)
+    else (s, .ok)
+  | none, _ => (s.mfault s!"uaf-query({key}) after write in ares_send_query", .other)
+  | _, none => (s.mfault s!"uaf-conn({fd}) after write in ares_send_query", .other)
+
+/-- the part of `ares_send_query` after a connection has been found: `ares_conn_query_write`, timeout, linking -/
+def sqWrite (go : Call → St → St × Ret) (reqSrv : Option Nat) (key : Nat) (q : Query) (srv : Server) (fd : Nat) (s : St) : St × Ret :=
+  let probeDowned := reqSrv.isNone && srv.failures == 0 && q.tryCount == 0
+  let (s, q) := sqPrep key q srv fd s
+  let (wst, s) : Status × St := sqFlush go fd s
   match wst with
-  | .ok =>
-    match s.query? key, s.conn? fd with
-    | some q, some _ =>
-      -- ares_calc_query_timeout
-      let srvNow := (s.server? srv.id).getD srv
-      let timeout := s.serverTimeout srvNow
-      let nsrv := s.servers.length
-      let rounds := q.tryCount / nsrv
-      let timeplus := if rounds > 0 then timeout * 2 ^ rounds else timeout
-      let timeplus := if s.cfg.maxtimeout != 0 && timeplus > s.cfg.maxtimeout then s.cfg.maxtimeout else timeplus
-      let (dl, s) : Deadline × St :=
-        if rounds > 0 then
-          let (_, s) := s.draw2
-          let lo := max timeout (timeplus - timeplus / 2)
-          let hi := max timeout timeplus
-          (.pending (s.now + lo) (s.now + hi), s)
-        else (.at (s.now + max timeplus timeout), s)
-      let s := { s with byTimeout := s.byTimeout.erase key }
-      let s := match q.conn with
-        | some old => s.modConn old fun c => { c with queries := c.queries.erase key }
-        | none => s
-      let s := s.modQuery key fun q => { q with ts := s.now, deadline := dl, conn := some fd, inConnList := true }
-      let s := { s with pendingOrder := s.pendingOrder.erase key ++ [key] }
-      let s := s.modConn fd fun c => { c with queries := c.queries.erase key ++ [key], total := c.total + 1 }
-      if probeDowned then
-        let (s, _) := go (.probe srv.id key) s
-        (s, .ok)
-      else (s, .ok)
-    | none, _ => (s.mfault s!"uaf-query({key}) after write in ares_send_query", .other)
-    | _, none => (s.mfault s!"uaf-conn({fd}) after write in ares_send_query", .other)
+  | .ok => sqLink go probeDowned key srv fd s
   | .nomem => go (.endQuery (some srv.id) key .nomem none) s
   | .connrefused | .badfamily =>
     let (s, _) := go (.connError fd true wst) s
@@ -193,8 +227,6 @@ def sqWrite (go : Call → St → St × Ret) (reqSrv : Option Nat) (key : Nat) (
   | wst' =>
     let s := s.incFailures srv.id q.usingTcp
     go (.requeue key wst' true none false) s
-
-
 
 /-- `ares_send_query` decomposed into its stages (definitional) -/
 theorem bodySendQuery_eq (go : Call → St → St × Ret) (reqSrv : Option Nat) (key : Nat) (s : St) :
@@ -223,15 +255,202 @@ syntax "chan_peel " ident (" [" Lean.Parser.Tactic.simpLemma,* "]")? : tactic
 macro_rules
   | `(tactic| chan_peel $h [$ts,*]) =>
     `(tactic| repeat (first
-        | assumption
-        | (apply $h)
+        | with_reducible assumption
+        | with_reducible (apply $h)
         | (simp only [chan_frame, $ts,*])
-        | (split <;> pair_subst)))
+        | (csplit <;> pair_subst)))
   | `(tactic| chan_peel $h) =>
     `(tactic| repeat (first
-        | assumption
-        | (apply $h)
+        | with_reducible assumption
+        | with_reducible (apply $h)
         | (simp only [chan_frame])
-        | (split <;> pair_subst)))
+        | (csplit <;> pair_subst)))
+
+/-- equational variant of `chan_peel`: rewrite with the frame lemmas (plus the given ones) until `rfl` -/
+syntax "chan_simp" (" [" Lean.Parser.Tactic.simpLemma,* "]")? : tactic
+macro_rules
+  | `(tactic| chan_simp [$ts,*]) =>
+    `(tactic| repeat (first
+        | with_reducible rfl
+        | (simp only [chan_frame, $ts,*])
+        | (csplit <;> pair_subst)))
+  | `(tactic| chan_simp) =>
+    `(tactic| repeat (first
+        | with_reducible rfl
+        | (simp only [chan_frame])
+        | (csplit <;> pair_subst)))
+
+/-! frame lemmas of the stages of `ares_send_query` -/
+section
+variable (s : St)
+@[simp, chan_frame] theorem pickServer_cfg (r : Option Nat) : (pickServer r s).2.cfg = s.cfg := by
+  unfold pickServer; chan_simp
+@[simp, chan_frame] theorem pickServer_now (r : Option Nat) : (pickServer r s).2.now = s.now := by
+  unfold pickServer; chan_simp
+@[simp, chan_frame] theorem pickServer_servers (r : Option Nat) : (pickServer r s).2.servers = s.servers := by
+  unfold pickServer; chan_simp
+@[simp, chan_frame] theorem pickServer_conns (r : Option Nat) : (pickServer r s).2.conns = s.conns := by
+  unfold pickServer; chan_simp
+@[simp, chan_frame] theorem pickServer_qs (r : Option Nat) : (pickServer r s).2.qs = s.qs := by
+  unfold pickServer; chan_simp
+@[simp, chan_frame] theorem pickServer_nextKey (r : Option Nat) : (pickServer r s).2.nextKey = s.nextKey := by
+  unfold pickServer; chan_simp
+@[simp, chan_frame] theorem pickServer_all (r : Option Nat) : (pickServer r s).2.all = s.all := by
+  unfold pickServer; chan_simp
+@[simp, chan_frame] theorem pickServer_byQid (r : Option Nat) : (pickServer r s).2.byQid = s.byQid := by
+  unfold pickServer; chan_simp
+@[simp, chan_frame] theorem pickServer_byTimeout (r : Option Nat) : (pickServer r s).2.byTimeout = s.byTimeout := by
+  unfold pickServer; chan_simp
+@[simp, chan_frame] theorem pickServer_listCopy (r : Option Nat) : (pickServer r s).2.listCopy = s.listCopy := by
+  unfold pickServer; chan_simp
+@[simp, chan_frame] theorem pickServer_socks (r : Option Nat) : (pickServer r s).2.socks = s.socks := by
+  unfold pickServer; chan_simp
+@[simp, chan_frame] theorem pickServer_nextFd (r : Option Nat) : (pickServer r s).2.nextFd = s.nextFd := by
+  unfold pickServer; chan_simp
+@[simp, chan_frame] theorem pickServer_txs (r : Option Nat) : (pickServer r s).2.txs = s.txs := by
+  unfold pickServer; chan_simp
+@[simp, chan_frame] theorem pickServer_cache (r : Option Nat) : (pickServer r s).2.cache = s.cache := by
+  unfold pickServer; chan_simp
+@[simp, chan_frame] theorem pickServer_requeueArr (r : Option Nat) : (pickServer r s).2.requeueArr = s.requeueArr := by
+  unfold pickServer; chan_simp
+@[simp, chan_frame] theorem pickServer_writeLog (r : Option Nat) : (pickServer r s).2.writeLog = s.writeLog := by
+  unfold pickServer; chan_simp
+@[simp, chan_frame] theorem pickServer_notifyLog (r : Option Nat) : (pickServer r s).2.notifyLog = s.notifyLog := by
+  unfold pickServer; chan_simp
+@[simp, chan_frame] theorem pickServer_sockLog (r : Option Nat) : (pickServer r s).2.sockLog = s.sockLog := by
+  unfold pickServer; chan_simp
+@[simp, chan_frame] theorem pickServer_accepted (r : Option Nat) : (pickServer r s).2.accepted = s.accepted := by
+  unfold pickServer; chan_simp
+@[simp, chan_frame] theorem pickServer_picks (r : Option Nat) : (pickServer r s).2.picks = s.picks := by
+  unfold pickServer; chan_simp
+@[simp, chan_frame] theorem pickServer_destroying (r : Option Nat) : (pickServer r s).2.destroying = s.destroying := by
+  unfold pickServer; chan_simp
+@[simp, chan_frame] theorem pickServer_destroyed (r : Option Nat) : (pickServer r s).2.destroyed = s.destroyed := by
+  unfold pickServer; chan_simp
+@[simp, chan_frame] theorem pickServer_outOfFuel (r : Option Nat) : (pickServer r s).2.outOfFuel = s.outOfFuel := by
+  unfold pickServer; chan_simp
+@[simp, chan_frame] theorem pickServer_modelFaults (r : Option Nat) : (pickServer r s).2.modelFaults = s.modelFaults := by
+  unfold pickServer; chan_simp
+@[simp, chan_frame] theorem pickServer_clients (r : Option Nat) : (pickServer r s).2.clients = s.clients := by
+  unfold pickServer; chan_simp
+@[simp, chan_frame] theorem pickServer_pendingWl (r : Option Nat) : (pickServer r s).2.pendingWl = s.pendingWl := by
+  unfold pickServer; chan_simp
+@[simp, chan_frame] theorem pickServer_selfVariant (r : Option Nat) : (pickServer r s).2.selfVariant = s.selfVariant := by
+  unfold pickServer; chan_simp
+@[simp, chan_frame] theorem pickServer_faults (r : Option Nat) : (pickServer r s).2.faults = s.faults := by
+  unfold pickServer; chan_simp
+@[simp, chan_frame] theorem pickServer_reactions (r : Option Nat) : (pickServer r s).2.reactions = s.reactions := by
+  unfold pickServer; chan_simp
+@[simp, chan_frame] theorem pickServer_notifyPending (r : Option Nat) : (pickServer r s).2.notifyPending = s.notifyPending := by
+  unfold pickServer; chan_simp
+@[simp, chan_frame] theorem pickServer_alive (r : Option Nat) : (pickServer r s).2.alive = s.alive := by
+  unfold pickServer; chan_simp
+@[simp, chan_frame] theorem pickServer_nextClient (r : Option Nat) : (pickServer r s).2.nextClient = s.nextClient := by
+  unfold pickServer; chan_simp
+@[simp, chan_frame] theorem openConn_cfg (tcp : Bool) (srv : Server) : (openConn s tcp srv).2.cfg = s.cfg := by
+  unfold openConn; chan_simp
+@[simp, chan_frame] theorem openConn_now (tcp : Bool) (srv : Server) : (openConn s tcp srv).2.now = s.now := by
+  unfold openConn; chan_simp
+@[simp, chan_frame] theorem openConn_qs (tcp : Bool) (srv : Server) : (openConn s tcp srv).2.qs = s.qs := by
+  unfold openConn; chan_simp
+@[simp, chan_frame] theorem openConn_nextKey (tcp : Bool) (srv : Server) : (openConn s tcp srv).2.nextKey = s.nextKey := by
+  unfold openConn; chan_simp
+@[simp, chan_frame] theorem openConn_all (tcp : Bool) (srv : Server) : (openConn s tcp srv).2.all = s.all := by
+  unfold openConn; chan_simp
+@[simp, chan_frame] theorem openConn_byQid (tcp : Bool) (srv : Server) : (openConn s tcp srv).2.byQid = s.byQid := by
+  unfold openConn; chan_simp
+@[simp, chan_frame] theorem openConn_byTimeout (tcp : Bool) (srv : Server) : (openConn s tcp srv).2.byTimeout = s.byTimeout := by
+  unfold openConn; chan_simp
+@[simp, chan_frame] theorem openConn_listCopy (tcp : Bool) (srv : Server) : (openConn s tcp srv).2.listCopy = s.listCopy := by
+  unfold openConn; chan_simp
+@[simp, chan_frame] theorem openConn_txs (tcp : Bool) (srv : Server) : (openConn s tcp srv).2.txs = s.txs := by
+  unfold openConn; chan_simp
+@[simp, chan_frame] theorem openConn_cache (tcp : Bool) (srv : Server) : (openConn s tcp srv).2.cache = s.cache := by
+  unfold openConn; chan_simp
+@[simp, chan_frame] theorem openConn_requeueArr (tcp : Bool) (srv : Server) : (openConn s tcp srv).2.requeueArr = s.requeueArr := by
+  unfold openConn; chan_simp
+@[simp, chan_frame] theorem openConn_writeLog (tcp : Bool) (srv : Server) : (openConn s tcp srv).2.writeLog = s.writeLog := by
+  unfold openConn; chan_simp
+@[simp, chan_frame] theorem openConn_accepted (tcp : Bool) (srv : Server) : (openConn s tcp srv).2.accepted = s.accepted := by
+  unfold openConn; chan_simp
+@[simp, chan_frame] theorem openConn_picks (tcp : Bool) (srv : Server) : (openConn s tcp srv).2.picks = s.picks := by
+  unfold openConn; chan_simp
+@[simp, chan_frame] theorem openConn_destroying (tcp : Bool) (srv : Server) : (openConn s tcp srv).2.destroying = s.destroying := by
+  unfold openConn; chan_simp
+@[simp, chan_frame] theorem openConn_destroyed (tcp : Bool) (srv : Server) : (openConn s tcp srv).2.destroyed = s.destroyed := by
+  unfold openConn; chan_simp
+@[simp, chan_frame] theorem openConn_outOfFuel (tcp : Bool) (srv : Server) : (openConn s tcp srv).2.outOfFuel = s.outOfFuel := by
+  unfold openConn; chan_simp
+@[simp, chan_frame] theorem openConn_modelFaults (tcp : Bool) (srv : Server) : (openConn s tcp srv).2.modelFaults = s.modelFaults := by
+  unfold openConn; chan_simp
+@[simp, chan_frame] theorem openConn_clients (tcp : Bool) (srv : Server) : (openConn s tcp srv).2.clients = s.clients := by
+  unfold openConn; chan_simp
+@[simp, chan_frame] theorem openConn_selfVariant (tcp : Bool) (srv : Server) : (openConn s tcp srv).2.selfVariant = s.selfVariant := by
+  unfold openConn; chan_simp
+@[simp, chan_frame] theorem openConn_reactions (tcp : Bool) (srv : Server) : (openConn s tcp srv).2.reactions = s.reactions := by
+  unfold openConn; chan_simp
+@[simp, chan_frame] theorem openConn_notifyPending (tcp : Bool) (srv : Server) : (openConn s tcp srv).2.notifyPending = s.notifyPending := by
+  unfold openConn; chan_simp
+@[simp, chan_frame] theorem openConn_alive (tcp : Bool) (srv : Server) : (openConn s tcp srv).2.alive = s.alive := by
+  unfold openConn; chan_simp
+@[simp, chan_frame] theorem openConn_nextClient (tcp : Bool) (srv : Server) : (openConn s tcp srv).2.nextClient = s.nextClient := by
+  unfold openConn; chan_simp
+@[simp, chan_frame] theorem sqPrep_cfg (key : Nat) (q : Query) (srv : Server) (fd : Nat) : (sqPrep key q srv fd s).1.cfg = s.cfg := by
+  unfold sqPrep; chan_simp
+@[simp, chan_frame] theorem sqPrep_now (key : Nat) (q : Query) (srv : Server) (fd : Nat) : (sqPrep key q srv fd s).1.now = s.now := by
+  unfold sqPrep; chan_simp
+@[simp, chan_frame] theorem sqPrep_nextKey (key : Nat) (q : Query) (srv : Server) (fd : Nat) : (sqPrep key q srv fd s).1.nextKey = s.nextKey := by
+  unfold sqPrep; chan_simp
+@[simp, chan_frame] theorem sqPrep_all (key : Nat) (q : Query) (srv : Server) (fd : Nat) : (sqPrep key q srv fd s).1.all = s.all := by
+  unfold sqPrep; chan_simp
+@[simp, chan_frame] theorem sqPrep_byQid (key : Nat) (q : Query) (srv : Server) (fd : Nat) : (sqPrep key q srv fd s).1.byQid = s.byQid := by
+  unfold sqPrep; chan_simp
+@[simp, chan_frame] theorem sqPrep_byTimeout (key : Nat) (q : Query) (srv : Server) (fd : Nat) : (sqPrep key q srv fd s).1.byTimeout = s.byTimeout := by
+  unfold sqPrep; chan_simp
+@[simp, chan_frame] theorem sqPrep_listCopy (key : Nat) (q : Query) (srv : Server) (fd : Nat) : (sqPrep key q srv fd s).1.listCopy = s.listCopy := by
+  unfold sqPrep; chan_simp
+@[simp, chan_frame] theorem sqPrep_socks (key : Nat) (q : Query) (srv : Server) (fd : Nat) : (sqPrep key q srv fd s).1.socks = s.socks := by
+  unfold sqPrep; chan_simp
+@[simp, chan_frame] theorem sqPrep_nextFd (key : Nat) (q : Query) (srv : Server) (fd : Nat) : (sqPrep key q srv fd s).1.nextFd = s.nextFd := by
+  unfold sqPrep; chan_simp
+@[simp, chan_frame] theorem sqPrep_txs (key : Nat) (q : Query) (srv : Server) (fd : Nat) : (sqPrep key q srv fd s).1.txs = s.txs := by
+  unfold sqPrep; chan_simp
+@[simp, chan_frame] theorem sqPrep_cache (key : Nat) (q : Query) (srv : Server) (fd : Nat) : (sqPrep key q srv fd s).1.cache = s.cache := by
+  unfold sqPrep; chan_simp
+@[simp, chan_frame] theorem sqPrep_requeueArr (key : Nat) (q : Query) (srv : Server) (fd : Nat) : (sqPrep key q srv fd s).1.requeueArr = s.requeueArr := by
+  unfold sqPrep; chan_simp
+@[simp, chan_frame] theorem sqPrep_notifyLog (key : Nat) (q : Query) (srv : Server) (fd : Nat) : (sqPrep key q srv fd s).1.notifyLog = s.notifyLog := by
+  unfold sqPrep; chan_simp
+@[simp, chan_frame] theorem sqPrep_sockLog (key : Nat) (q : Query) (srv : Server) (fd : Nat) : (sqPrep key q srv fd s).1.sockLog = s.sockLog := by
+  unfold sqPrep; chan_simp
+@[simp, chan_frame] theorem sqPrep_accepted (key : Nat) (q : Query) (srv : Server) (fd : Nat) : (sqPrep key q srv fd s).1.accepted = s.accepted := by
+  unfold sqPrep; chan_simp
+@[simp, chan_frame] theorem sqPrep_picks (key : Nat) (q : Query) (srv : Server) (fd : Nat) : (sqPrep key q srv fd s).1.picks = s.picks := by
+  unfold sqPrep; chan_simp
+@[simp, chan_frame] theorem sqPrep_destroying (key : Nat) (q : Query) (srv : Server) (fd : Nat) : (sqPrep key q srv fd s).1.destroying = s.destroying := by
+  unfold sqPrep; chan_simp
+@[simp, chan_frame] theorem sqPrep_destroyed (key : Nat) (q : Query) (srv : Server) (fd : Nat) : (sqPrep key q srv fd s).1.destroyed = s.destroyed := by
+  unfold sqPrep; chan_simp
+@[simp, chan_frame] theorem sqPrep_outOfFuel (key : Nat) (q : Query) (srv : Server) (fd : Nat) : (sqPrep key q srv fd s).1.outOfFuel = s.outOfFuel := by
+  unfold sqPrep; chan_simp
+@[simp, chan_frame] theorem sqPrep_modelFaults (key : Nat) (q : Query) (srv : Server) (fd : Nat) : (sqPrep key q srv fd s).1.modelFaults = s.modelFaults := by
+  unfold sqPrep; chan_simp
+@[simp, chan_frame] theorem sqPrep_clients (key : Nat) (q : Query) (srv : Server) (fd : Nat) : (sqPrep key q srv fd s).1.clients = s.clients := by
+  unfold sqPrep; chan_simp
+@[simp, chan_frame] theorem sqPrep_pendingWl (key : Nat) (q : Query) (srv : Server) (fd : Nat) : (sqPrep key q srv fd s).1.pendingWl = s.pendingWl := by
+  unfold sqPrep; chan_simp
+@[simp, chan_frame] theorem sqPrep_selfVariant (key : Nat) (q : Query) (srv : Server) (fd : Nat) : (sqPrep key q srv fd s).1.selfVariant = s.selfVariant := by
+  unfold sqPrep; chan_simp
+@[simp, chan_frame] theorem sqPrep_faults (key : Nat) (q : Query) (srv : Server) (fd : Nat) : (sqPrep key q srv fd s).1.faults = s.faults := by
+  unfold sqPrep; chan_simp
+@[simp, chan_frame] theorem sqPrep_reactions (key : Nat) (q : Query) (srv : Server) (fd : Nat) : (sqPrep key q srv fd s).1.reactions = s.reactions := by
+  unfold sqPrep; chan_simp
+@[simp, chan_frame] theorem sqPrep_notifyPending (key : Nat) (q : Query) (srv : Server) (fd : Nat) : (sqPrep key q srv fd s).1.notifyPending = s.notifyPending := by
+  unfold sqPrep; chan_simp
+@[simp, chan_frame] theorem sqPrep_alive (key : Nat) (q : Query) (srv : Server) (fd : Nat) : (sqPrep key q srv fd s).1.alive = s.alive := by
+  unfold sqPrep; chan_simp
+@[simp, chan_frame] theorem sqPrep_nextClient (key : Nat) (q : Query) (srv : Server) (fd : Nat) : (sqPrep key q srv fd s).1.nextClient = s.nextClient := by
+  unfold sqPrep; chan_simp
+end
 
 end Cares.Chan
